@@ -11,6 +11,7 @@ import (
 	"fmt"
 	"os"
 	"regexp"
+	"slices"
 	"sort"
 	"strings"
 	"sync"
@@ -465,6 +466,39 @@ func Observe(rd ReadAPI, p *Pool) string {
 	}
 	sort.Strings(all)
 	fmt.Fprintf(&sb, "all=%s\n", strings.Join(all, "; "))
+	// differential: a sequence value is re-usable. Ranging over the same value again - after a loop that
+	// stopped early, and from inside its own loop body - must report the same set (a difference adds a
+	// line no expectation contains)
+	for _, sq := range []struct {
+		name string
+		seq  func(func(string, *fox.Route) bool)
+	}{{"All", it.All()}, {"Prefix(/)", it.Prefix(it.Methods(), "/")}} {
+		collect := func() []string {
+			var out []string
+			for m, r := range sq.seq {
+				out = append(out, fmt.Sprintf("%s %s#%d", m, r.Pattern(), fx.RouteVer(r)))
+			}
+			sort.Strings(out)
+			return out
+		}
+		first := collect()
+		for stop := 1; stop <= 2 && stop < len(first); stop++ {
+			n := 0
+			var inner []string
+			for range sq.seq {
+				if n++; n == stop {
+					if stop == 2 {
+						inner = collect()
+					}
+					break
+				}
+			}
+			again := collect()
+			if !slices.Equal(first, again) || (inner != nil && !slices.Equal(first, inner)) {
+				fmt.Fprintf(&sb, "Iter.%s ranged again after stopping at element %d: %v (nested: %v), first pass %v\n", sq.name, stop, again, inner, first)
+			}
+		}
+	}
 	for _, m := range p.Methods {
 		for _, pt := range p.Patterns {
 			has := rd.Has(m, pt)
